@@ -78,14 +78,26 @@ class Edits:
         self.eds = []  # (start, end, new, order)
         self.n = 0
 
-    def insert(self, pos, new):
-        self.eds.append((pos, pos, new, self.n)); self.n += 1
-
     def replace(self, a, b, new):
-        for (s, e, _, _) in self.eds:
+        keep = []
+        for (s, e, t, o) in self.eds:
             if s != e and not (b <= s or e <= a):
+                if s <= a and b <= e:
+                    return          # the new rewrite lies inside text that an outer rewrite already replaces
+                if a <= s and e <= b:
+                    continue        # an earlier rewrite lies inside the text replaced now: the outer one wins
                 raise ExtractError(f"overlapping rewrites at {a}..{b}")
+            if s == e and a < s < b:
+                continue            # insertion inside replaced text
+            keep.append((s, e, t, o))
+        self.eds = keep
         self.eds.append((a, b, new, self.n)); self.n += 1
+
+    def insert(self, pos, new):
+        for (s, e, _, _) in self.eds:
+            if s != e and s < pos < e:
+                return              # inside replaced text
+        self.eds.append((pos, pos, new, self.n)); self.n += 1
 
     def render(self):
         """returns (text, offs) where offs[i] = source offset for char i, or None for inserted text"""
@@ -601,8 +613,13 @@ def build_item(cur, log):
         firsts = [x.strip() for x in fsec["first"].text.split("|||") if x.strip()]
         lasts = [x.strip() for x in fsec["last"].text.split("|||") if x.strip()]
         for anc in firsts + lasts:
-            if body.count(anc) != 1:
+            if body.count(anc) > 1:
                 raise ExtractError(f"lost-anchor: block {name} in {pos[1]}: anchor occurs {body.count(anc)}x: {anc[:50]!r}")
+        # alternatives that do not occur are ignored (they name older/newer spellings of the same statement)
+        firsts = [x for x in firsts if body.count(x) == 1]
+        lasts = [x for x in lasts if body.count(x) == 1]
+        if not firsts or not lasts:
+            raise ExtractError(f"lost-anchor: block {name} in {pos[1]}: no first/last anchor found")
         a = min(body.index(x) for x in firsts)
         b = max(body.index(x) + len(x) for x in lasts)
         if b <= a: raise ExtractError(f"lost-anchor: block {name}: anchors out of order")
